@@ -1,7 +1,11 @@
 """Translator for core.defvjp (C17): the dictionary it builds (argnums zipped with the rule makers, `count()` by default)
 and the three branches of its vjp_argnums (one, two, any number of differentiated arguments): for each branch, WHICH
 dictionary entry produces WHICH position of the returned tuple is followed symbolically through the assignments.
-Output: coq/gen/GenExtend.v; Operators/ExtendTie.v proves Extend.make_dict / defvjp_route equal to it.  Fail-closed."""
+Forward mode: core.defjvp (the dictionary; one contribution per (argnum, g) of zip(argnums, gs), in order, summed),
+core.defjvp_argnum, core.def_linear, and what a `None` entry becomes in translate_vjp / translate_jvp - the zero of WHICH
+space (the argument's or the output's) - and the 'same' entry (the primitive itself with g substituted at argnum).
+Output: coq/gen/GenExtend.v; Operators/ExtendTie.v proves Extend.make_dict / defvjp_route / the forward-mode tables equal
+to it.  Fail-closed."""
 import ast
 import os
 
@@ -71,6 +75,72 @@ def run(repo, gen):
     need(len(o1) == 1 and len(o2) == 2, "arity of the returned tuples")
     need(len(generic) == 2 and src(generic[0]) == "vjps = [vjps_dict[argnum](ans, *args, **kwargs) for argnum in argnums]"
          and src(generic[1]) == "return lambda g: (vjp(g) for vjp in vjps)", "the generic branch: one entry per argnum, in order")
+    # ---- forward mode ----
+    fj = fun_def(core, "defjvp")
+    need([a.arg for a in fj.args.args] == ["fun"] and fj.args.vararg.arg == "jvpfuns" and fj.args.kwarg.arg == "kwargs", "defjvp signature")
+    jb = code(fj.body)
+    need(len(jb) == 4, "defjvp has %d statements" % len(jb))
+    need(src(jb[0]) == "argnums = kwargs.get('argnums', count())", "defjvp: argnums default to count()")
+    need(src(jb[1]) == "jvps_dict = {argnum: translate_jvp(jvpfun, fun, argnum) for argnum, jvpfun in zip(argnums, jvpfuns)}", "defjvp: the dictionary")
+    need(src(jb[3]) == "defjvp_argnums(fun, jvp_argnums)", "defjvp: registration through defjvp_argnums")
+    ja = jb[2]
+    need(isinstance(ja, ast.FunctionDef) and [a.arg for a in ja.args.args] == ["argnums", "gs", "ans", "args", "kwargs"] and
+         [src(t) for t in code(ja.body)] == ["return sum_outgrads((jvps_dict[argnum](g, ans, *args, **kwargs) for argnum, g in zip(argnums, gs)))"],
+         "defjvp.jvp_argnums: the sum over zip(argnums, gs) of jvps_dict[argnum](g, ans, *args, **kwargs); found %r" % [src(t) for t in code(ja.body)])
+    fa = fun_def(core, "defjvp_argnum")
+    ab = code(fa.body)
+    need([a.arg for a in fa.args.args] == ["fun", "jvpmaker"] and len(ab) == 2 and isinstance(ab[0], ast.FunctionDef)
+         and [a.arg for a in ab[0].args.args] == ["argnums", "gs", "ans", "args", "kwargs"]
+         and [src(t) for t in code(ab[0].body)] == ["return sum_outgrads((jvpmaker(argnum, g, ans, args, kwargs) for argnum, g in zip(argnums, gs)))"]
+         and src(ab[1]) == "defjvp_argnums(fun, %s)" % ab[0].name, "defjvp_argnum: the sum over zip(argnums, gs) of jvpmaker(argnum, g, ans, args, kwargs)")
+    fl = fun_def(core, "def_linear")
+    need([a.arg for a in fl.args.args] == ["fun"] and [src(t) for t in code(fl.body)] ==
+         ["defjvp_argnum(fun, lambda argnum, g, ans, args, kwargs: fun(*subval(args, argnum, g), **kwargs))"], "def_linear: the primitive itself with g substituted at argnum")
+
+    def zero_of(lam, what):
+        """lam: the lambda a None entry is translated into; returns 'ZOfOutput' / 'ZOfArgument'"""
+        need(isinstance(lam, ast.Lambda), "%s: a None entry becomes a lambda" % what)
+        names = [a.arg for a in lam.args.args]
+        var = lam.args.vararg.arg if lam.args.vararg else None
+        body = lam.body
+        if isinstance(body, ast.Lambda):            # reverse mode: lambda ans, *args, **kwargs: lambda g: ...
+            need([a.arg for a in body.args.args] == ["g"] and names[:1] == ["ans"], "%s: lambda ans, *args, **kwargs: lambda g: ..." % what)
+            body = body.body
+        else:                                       # forward mode: lambda g, ans, *args, **kwargs: ...
+            need(names[:2] == ["g", "ans"], "%s: lambda g, ans, *args, **kwargs: ..." % what)
+        need(isinstance(body, ast.Call) and not body.args and not body.keywords and isinstance(body.func, ast.Attribute) and body.func.attr == "zeros"
+             and isinstance(body.func.value, ast.Call) and src(body.func.value.func) == "vspace" and len(body.func.value.args) == 1,
+             "%s: the None entry is vspace(<value>).zeros(); found %r" % (what, src(body)))
+        x = src(body.func.value.args[0])
+        if x == "ans":
+            return "ZOfOutput"
+        need(var is not None and x == "%s[argnum]" % var, "%s: zeros of vspace(%s) is neither the output's nor the argument's space" % (what, x))
+        return "ZOfArgument"
+
+    def branches(f):
+        b_ = code(f.body)
+        need(len(b_) == 1 and isinstance(b_[0], ast.If), "%s is one if/elif chain" % f.name)
+        out_, node = [], b_[0]
+        while True:
+            out_.append((src(node.test), code(node.body)))
+            if len(node.orelse) == 1 and isinstance(node.orelse[0], ast.If):
+                node = node.orelse[0]
+            else:
+                out_.append(("else", code(node.orelse)))
+                return out_
+    tv = fun_def(core, "translate_vjp")
+    need([a.arg for a in tv.args.args] == ["vjpfun", "fun", "argnum"], "translate_vjp signature")
+    bv = branches(tv)
+    need([t for t, _ in bv] == ["vjpfun is None", "callable(vjpfun)", "else"] and all(len(b_) == 1 for _, b_ in bv), "translate_vjp: None / callable / else")
+    need(isinstance(bv[0][1][0], ast.Return) and src(bv[1][1][0]) == "return vjpfun" and isinstance(bv[2][1][0], ast.Raise), "translate_vjp: a callable is used as it is, anything else raises")
+    zv = zero_of(bv[0][1][0].value, "translate_vjp")
+    tj = fun_def(core, "translate_jvp")
+    need([a.arg for a in tj.args.args] == ["jvpfun", "fun", "argnum"], "translate_jvp signature")
+    bj = branches(tj)
+    need([t for t, _ in bj] == ["jvpfun is None", "jvpfun == 'same'", "callable(jvpfun)", "else"] and all(len(b_) == 1 for _, b_ in bj), "translate_jvp: None / 'same' / callable / else")
+    need(isinstance(bj[0][1][0], ast.Return) and src(bj[2][1][0]) == "return jvpfun" and isinstance(bj[3][1][0], ast.Raise), "translate_jvp: a callable is used as it is, anything else raises")
+    need(src(bj[1][1][0]) == "return lambda g, ans, *args, **kwargs: fun(*subval(args, argnum, g), **kwargs)", "translate_jvp: 'same' is the primitive itself with g substituted at argnum")
+    zj = zero_of(bj[0][1][0].value, "translate_jvp")
     text = """(* GENERATED by harness/translators/extend.py from autograd/core.py (defvjp) - do not edit. *)
 From Coq Require Import List Arith.
 Import ListNotations.
@@ -92,13 +162,29 @@ Definition gen_defvjp_route (d : rdict) (argnums : list nat) : option (list out)
   | 2 => mapM (gen_pick d argnums) gen_route_two
   | _ => mapM (fun a => option_map (mk a) (dget a d)) argnums
   end.
-""" % ("[" + "; ".join(str(k) for k in o1) + "]", "[" + "; ".join(str(k) for k in o2) + "]")
+
+(* ---- forward mode ---- *)
+(* jvps_dict = {argnum: translate_jvp(jvpfun, fun, argnum) for argnum, jvpfun in zip(argnums, jvpfuns)} *)
+Definition gen_jmake_dict (argnums : option (list nat)) (makers : list jentry) : jdict :=
+  combine (match argnums with Some l => l | None => seq 0 (length makers) end) makers.
+(* sum_outgrads(jvps_dict[argnum](g, ans, *args, **kwargs) for argnum, g in zip(argnums, gs)) *)
+Definition gen_defjvp_route (d : jdict) (argnums : list nat) : option (list jout) :=
+  mapM (fun a => option_map (jmk a) (jget a d)) argnums.
+(* sum_outgrads(jvpmaker(argnum, g, ans, args, kwargs) for argnum, g in zip(argnums, gs)) *)
+Definition gen_defjvp_argnum_route (rid : nat) (argnums : list nat) : option (list jout) :=
+  Some (map (fun a => JORule rid a) argnums).
+(* def_linear: defjvp_argnum with the primitive itself, g substituted at position argnum *)
+Definition gen_def_linear_route (argnums : list nat) : option (list jout) := Some (map JOSame argnums).
+(* a None entry: translate_vjp gives vspace(<this>).zeros(), translate_jvp gives vspace(<this>).zeros() *)
+Definition gen_none_vjp_zero : zero_space := %s.
+Definition gen_none_jvp_zero : zero_space := %s.
+""" % ("[" + "; ".join(str(k) for k in o1) + "]", "[" + "; ".join(str(k) for k in o2) + "]", zv, zj)
     path = os.path.join(gen, "GenExtend.v")
     try:
         if open(path).read() == text:
-            return {"routes": [o1, o2]}
+            return {"routes": [o1, o2], "zeros": [zv, zj]}
     except OSError:
         pass
     with open(path, "w") as fh:
         fh.write(text)
-    return {"routes": [o1, o2]}
+    return {"routes": [o1, o2], "zeros": [zv, zj]}
